@@ -31,7 +31,7 @@ def ones (l : List Nat) : String := ",".intercalate (l.map toString)
 
 def thr (kind : String) (n : Nat) : String :=
   let threads := if kind == "inv" then n - 1 else n
-  let c := runToEnd threads (kind == "sub" || kind == "grp")
+  let c := runToEnd threads (kind == "sub" || kind == "grp" || kind == "reap")
   let ran := (List.range threads).map c.ran
   let fin := (List.range threads).map fun j => if c.finished j then 1 else 0
   let (ran, fin) := if kind == "inv" then (1 :: ran, 1 :: fin) else (ran, fin)
